@@ -657,7 +657,7 @@ class Normaliser:
             if isinstance(t, ast.Attribute):
                 return pure(t) and t.attr not in ROLE_LISTS
             if isinstance(t, ast.Subscript):
-                return pure(t.value) and isinstance(t.slice, ast.Constant)
+                return pure(t.value) and pure(t.slice) and not any(isinstance(x, ast.Call) for x in ast.walk(t.slice))
             return False
 
         class Aug(ast.NodeTransformer):
@@ -813,9 +813,10 @@ class Normaliser:
         it = st.iter
         if isinstance(it, ast.Call) and isinstance(it.func, ast.Name) and it.func.id == 'range' and len(it.args) == 1 and isinstance(st.target, ast.Name) \
                 and isinstance(it.args[0], ast.Call) and isinstance(it.args[0].func, ast.Name) and it.args[0].func.id == 'len' and len(it.args[0].args) == 1 \
-                and chain_attrs(it.args[0].args[0]) is not None:
+                and (chain_attrs(it.args[0].args[0]) is not None or isinstance(it.args[0].args[0], ast.Name)):
             L, idx, elem = it.args[0].args[0], st.target.id, f'{st.target.id}__elem'
-        elif isinstance(it, ast.Call) and isinstance(it.func, ast.Name) and it.func.id == 'enumerate' and len(it.args) == 1 and chain_attrs(it.args[0]) is not None \
+        elif isinstance(it, ast.Call) and isinstance(it.func, ast.Name) and it.func.id == 'enumerate' and len(it.args) == 1 \
+                and (chain_attrs(it.args[0]) is not None or isinstance(it.args[0], ast.Name)) \
                 and isinstance(st.target, ast.Tuple) and len(st.target.elts) == 2 and all(isinstance(e, ast.Name) for e in st.target.elts):
             L, idx, elem = it.args[0], st.target.elts[0].id, st.target.elts[1].id
         if L is not None:
@@ -836,6 +837,27 @@ class Normaliser:
                 st.target = ast.copy_location(ast.Name(id=elem, ctx=ast.Store()), st.target)
                 st.iter = L
                 self.note('N3', 'index loop -> element loop')
+        # `for v in L: w = v; ...` (v not used otherwise) -> `for w in L: ...`
+        if isinstance(st.target, ast.Name) and len(st.body) >= 2 and isinstance(st.body[0], ast.Assign) and len(st.body[0].targets) == 1 \
+                and isinstance(st.body[0].targets[0], ast.Name) and isinstance(st.body[0].value, ast.Name) and st.body[0].value.id == st.target.id \
+                and not uses(st.target.id, st.body[1:]) and not uses(st.target.id, rest):
+            st.target = ast.copy_location(ast.Name(id=st.body[0].targets[0].id, ctx=ast.Store()), st.target)
+            del st.body[0]
+            self.note('N3', 'loop variable alias removed')
+        # guard-continue: `if T: continue` + REST  ->  `if not T: REST`
+        if len(st.body) >= 2 and isinstance(st.body[0], ast.If) and not st.body[0].orelse and len(st.body[0].body) == 1 and isinstance(st.body[0].body[0], ast.Continue):
+            g = st.body[0]
+            t = g.test
+            _NEG = {ast.Eq: ast.NotEq, ast.NotEq: ast.Eq, ast.Is: ast.IsNot, ast.IsNot: ast.Is, ast.In: ast.NotIn, ast.NotIn: ast.In}
+            if isinstance(t, ast.UnaryOp) and isinstance(t.op, ast.Not):
+                g.test = t.operand
+            elif isinstance(t, ast.Compare) and len(t.ops) == 1 and type(t.ops[0]) in _NEG:
+                g.test = ast.copy_location(ast.Compare(left=t.left, ops=[_NEG[type(t.ops[0])]()], comparators=t.comparators), t)
+            else:
+                g.test = ast.copy_location(ast.UnaryOp(op=ast.Not(), operand=t), t)
+            g.body = st.body[1:]
+            st.body = [g]
+            self.note('N3', 'guard-continue in a search loop -> positive test')
         # nested ifs
         while len(st.body) == 1 and isinstance(st.body[0], ast.If) and not st.body[0].orelse and len(st.body[0].body) == 1 \
                 and isinstance(st.body[0].body[0], ast.If) and not st.body[0].body[0].orelse:
@@ -844,10 +866,46 @@ class Normaliser:
             outer.body = inner.body
             self.note('N3', 'nested ifs in a search loop merged')
 
+    def _while_index_to_for(self, body, i):
+        """`k = 0` + `while k < len(L): BODY; k += 1`  ->  `for k in range(len(L)): BODY`   (BODY without `continue`, does not assign k or resize L; k unused after the loop)"""
+        st = body[i]
+        prev = body[i - 1] if i > 0 else None
+        if not (isinstance(st, ast.While) and not st.orelse and isinstance(st.test, ast.Compare) and len(st.test.ops) == 1 and isinstance(st.test.ops[0], ast.Lt)
+                and isinstance(st.test.left, ast.Name) and isinstance(prev, ast.Assign) and len(prev.targets) == 1 and isinstance(prev.targets[0], ast.Name)
+                and prev.targets[0].id == st.test.left.id and isinstance(prev.value, ast.Constant) and prev.value.value == 0 and len(st.body) >= 2):
+            return False
+        k = st.test.left.id
+        bound = st.test.comparators[0]
+        if not (isinstance(bound, ast.Call) and isinstance(bound.func, ast.Name) and bound.func.id == 'len' and len(bound.args) == 1):
+            return False
+        Ltxt = ast.unparse(bound.args[0])
+        last = st.body[-1]
+        if not (isinstance(last, ast.AugAssign) and isinstance(last.op, ast.Add) and isinstance(last.target, ast.Name) and last.target.id == k
+                and isinstance(last.value, ast.Constant) and last.value.value == 1):
+            return False
+        rest = st.body[:-1]
+        for x in [y for s_ in rest for y in ast.walk(s_)]:
+            if isinstance(x, ast.Continue) or (isinstance(x, ast.Name) and x.id == k and isinstance(x.ctx, ast.Store)):
+                return False
+            if isinstance(x, ast.Call) and isinstance(x.func, ast.Attribute) and ast.unparse(x.func.value) == Ltxt and x.func.attr in ('pop', 'remove', 'append', 'insert', 'clear', 'extend'):
+                return False
+        if any(isinstance(x, ast.Name) and x.id == k for s_ in body[i + 1:] for x in ast.walk(s_)):
+            return False
+        new = ast.copy_location(ast.For(target=ast.Name(id=k, ctx=ast.Store()),
+                                        iter=ast.Call(func=ast.Name(id='range', ctx=ast.Load()), args=[bound], keywords=[]), body=rest, orelse=[]), st)
+        ast.fix_missing_locations(new)
+        body[i] = new
+        del body[i - 1]
+        self.note('N3', 'while-index loop -> for')
+        return True
+
     def _n3_block(self, fn, body, rel, is_fn_tail):
         i = 0
         while i < len(body):
             st = body[i]
+            if isinstance(st, ast.While) and self._while_index_to_for(body, i):
+                i -= 1
+                st = body[i]
             if isinstance(st, ast.For) and not st.orelse:
                 self._canon_index_loop(st, body[i + 1:])
             if isinstance(st, ast.For) and isinstance(st.target, ast.Tuple) and all(isinstance(e, ast.Name) for e in st.target.elts) and not st.orelse \
@@ -906,10 +964,11 @@ class Normaliser:
                 # (b) found = None ; for v in L: if P: found = v; break
                 prev = body[i - 1] if i > 0 else None
                 if pure_test and len(iff.body) == 2 and isinstance(last, ast.Break) and isinstance(iff.body[0], ast.Assign) \
-                        and len(iff.body[0].targets) == 1 and isinstance(iff.body[0].targets[0], ast.Name) \
+                        and len(iff.body[0].targets) == 1 and (isinstance(iff.body[0].targets[0], ast.Name) or chain_attrs(iff.body[0].targets[0]) is not None) \
                         and isinstance(iff.body[0].value, ast.Name) and iff.body[0].value.id == tgt \
-                        and isinstance(prev, ast.Assign) and len(prev.targets) == 1 and isinstance(prev.targets[0], ast.Name) \
-                        and prev.targets[0].id == iff.body[0].targets[0].id and self._is_none(prev.value) \
+                        and isinstance(prev, ast.Assign) and len(prev.targets) == 1 \
+                        and ast.unparse(prev.targets[0]) == ast.unparse(iff.body[0].targets[0]) and self._is_none(prev.value) \
+                        and ast.unparse(iff.body[0].targets[0]) not in ast.unparse(iff.test) \
                         and not any(isinstance(x, ast.Name) and x.id == tgt for s2 in body[i + 1:] for x in ast.walk(s2)):
                     new = ast.Assign(targets=[copy.deepcopy(prev.targets[0])], value=self._next_call(st, iff))
                     ast.copy_location(new, st)
